@@ -300,14 +300,17 @@ class ShortReads(object):
     """A raw-IO style file object: read(n) may return fewer than n bytes before the end of the file (pipes, sockets and
     unbuffered files do)."""
 
-    def __init__(self, f):
+    def __init__(self, f, tiny=False):
         self.f = f
         self.k = 0
+        self.tiny = tiny            # reads of 1..3 bytes: every byte position of a small file becomes a chunk boundary
 
     def read(self, n=-1):
         self.k += 1
         if n is None or n < 0:
             return self.f.read()
+        if self.tiny:
+            return self.f.read(max(1, min(n, [1, 2, 3, 1, 1, 2][self.k % 6])))
         return self.f.read(max(1, min(n, [7, 4096, n, 1000, 65535][self.k % 5])))
 
     def write(self, b):
